@@ -38,8 +38,8 @@ ASSUMPTIONS = C2.ASSUMPTIONS + [
     'RFC 7606 class table written from the RFC: attribute-discard for ATOMIC_AGGREGATE, AGGREGATOR, AS4_AGGREGATOR, AS4_PATH; session reset allowed for any error; treat-as-withdraw for the rest',
     'paths on which the corrupted message is still well-formed per the oracle are assumed away',
 ]
-BOUNDS = {'quick': {'attrs': '14 attribute types x up to 7 operators x {ipv4 NLRI, MP_REACH ipv6}', 'value bytes': '<= 12 symbolic per corrupted attribute'},
-          'thorough': {'attrs': 'same + 2-byte-AS session + ADD-PATH session', 'value bytes': '<= 24'}}
+BOUNDS = {'quick': {'attrs': '14 attribute types x up to 7 operators x {ipv4 NLRI, MP_REACH ipv6}; NEXT_HOP of 16 octets', 'history': 'value / short / long / empty of every attribute (flags, overrun for origin, med, community) on the second arrival after (well-formed UPDATE, itself)', 'value bytes': '<= 12 symbolic per corrupted attribute'},
+          'thorough': {'attrs': 'same + 2-byte-AS session + ADD-PATH session', 'history': 'every operator of every attribute', 'value bytes': '<= 24'}}
 OUTSIDE = ['histories longer than (well-formed UPDATE, the malformed UPDATE, the malformed UPDATE again)', 'attribute types whose decoders are only reachable with other families (BGP-LS, SR, tunnel-encap, PMSI, AIGP): their crash-freedom is C03, their round trip C15',
            'two simultaneous corruptions']
 
